@@ -5,7 +5,6 @@ import (
 	"fmt"
 	"os"
 	"path/filepath"
-	"runtime"
 	"strings"
 	"time"
 
@@ -238,7 +237,7 @@ func walletEdges() {
 		sessions[g] = append(sessions[g], i)
 	}
 	seed := vio.Seed()
-	vio.ParMap(len(sessions), runtime.NumCPU(), func(sn int) {
+	vio.ParMap(len(sessions), workers(), func(sn int) {
 		var r sessionResult
 		if pn := vio.Safe(func() { r = runSession(sn, sessions[sn], edges, root, seed) }); pn != "" {
 			vio.Fatal("driver panic in session %d: %s", sn, pn)
